@@ -8,14 +8,17 @@
       modification time ([C09_reads_never_reorder]);
     - writes enqueue fresh: every publishing rename/link of set / put is
       preceded, since the last clock reading t, by an accepted futimens(atime =
-      t - 120 s, mtime = t) ([C09_writes_stamp_fresh]); after truncation to any
+      t - 120 s, mtime = t) ([C09_writes_stamp_fresh]), and that stamp is on the
+      file that is published: it goes through a descriptor opened on the very
+      path that is then renamed / linked ([C09_the_published_file_is_the_one_stamped]);
+      the reprieves of maintenance carry the same pair of values (C07); after truncation to any
       granularity up to 2 s the new entry is still unmarked ([C09_born_unmarked]);
       a lookup's explicit touch (atime := mtime) marks ([C09_touch_marks]).
     How the kernel's own atime updates (relatime, noatime) interact is validated
     by the emulated-policy runs of vlib/c09.py against this model. *)
 From Coq Require Import List NArith ZArith String Bool Lia.
 From Kismet Require Import Gen.Constants Gen.Agree FS.Fs FS.Prog Spec.Wp Spec.ClassMon Spec.Calm Ops.Ops Conc.Pool Conc.Immut
-     Proofs.ReadsKeepOrder Proofs.FreshStamp.
+     Proofs.ReadsKeepOrder Proofs.FreshStamp Proofs.StampPath.
 Import ListNotations.
 
 Theorem C09_lookups_and_touches_keep_mtimes : forall cfg k stack chk,
@@ -44,6 +47,24 @@ Proof. intros. apply (fresh_stamp_run _ (fr_cache_set cfg k v)). Qed.
 
 (** The offset between the two timestamps written at insertion covers any
     granularity up to 2 s: after truncation the read mark is still clear. *)
+(** ... on the published file itself: per-file monitor for the value file [v]. *)
+Theorem C09_the_published_file_is_the_one_stamped : forall (which : bool) cfg k v,
+  tr v (if which then cache_set cfg k v else cache_put cfg k v).
+Proof. intros which cfg k v. exact (tr_cache_write v which cfg k). Qed.
+
+Theorem C09_per_file_on_every_run : forall cfg k v w o s,
+  let '(_, _, _, trc) := run (cache_set cfg k v) w o in mon_run (tp_step v) s trc <> None.
+Proof. intros cfg k v w o s. exact (stamp_path_run v _ (tr_cache_write v true cfg k) w o s). Qed.
+
+Theorem C09_per_file_monitor_meaning : forall v q fd t,
+  tp_step v (mkT (Some fd) (Some t) false) (EvCall (CRename v q) ROk) = None /\
+  tp_step v (mkT (Some fd) (Some t) false) (EvCall (CFutimens fd (Some (t - 120 * 1000000000)%Z) (Some t)) ROk) = Some (mkT (Some fd) (Some t) true) /\
+  tp_step v (mkT (Some fd) (Some t) true) (EvNow (t + 1)%Z) = Some (mkT (Some fd) (Some (t + 1)%Z) false).
+Proof.
+  intros v q fd t. cbn [tp_step t_fd t_clock t_stamped]. rewrite Proofs.PutNeverOverwrites.path_eqb_refl, Nat.eqb_refl, Z.eqb_refl.
+  change Ops.DELTA_NS with (120 * 1000000000)%Z. rewrite Z.eqb_refl. repeat split.
+Qed.
+
 Theorem C09_born_unmarked : forall g t, (1 <= g <= 2000000000)%Z -> (0 <= t)%Z ->
   (trunc g (t - DELTA_NS) < trunc g t)%Z.
 Proof.
